@@ -40,6 +40,8 @@ func TestCheck(t *testing.T) {
 		"cache-population: scripted histories of three different clients of one cache key on a shared instance (first with ECS option / without AD+DO, later without ECS / with AD, ECS-dependent and plain names, plus a control order), every response compared with the same request processed alone on a fresh stack; class = (variant, qtype, DO, servers); non-trivial iff the first request was a miss and a later one was served from the cache (measured by upstream calls). " +
 		"simple-cache: scripted histories on a stack with the simple cache middleware (miss, fresh hit released into the pools, requests of other profiles that draw records of the same type from the pools, later hits) for 7 record types, each response compared with the same request processed alone on a fresh stack; non-trivial iff the fresh hit was served with undecayed TTLs and a later hit followed (measured). " +
 		"shared-rule-list: real filter storage with index rule lists and result caches; two profiles sharing one list (3 resp. 5 matching rules from different lookup tables) with different further lists ask the same hosts from 32 goroutines; each response compared with its profile's processed-alone response; non-trivial iff another request was in flight (measured). " +
+		"blocked-services: real blocked-service index (3 services, result caches on), 3 profiles with different overlapping service sets; sequential histories (non-blocking profile and the two blocking ones in 4 orders, A/AAAA/HTTPS) and a concurrent drive, every response vs processed alone; non-trivial iff the processed-alone verdicts of the profiles differ (measured). " +
+		"listeners: real plain-DNS UDP+TCP and DoT servers with Disposer = the constructor's Cloner; 16 UDP sockets x 12 and 6+6 stream connections x 10 equal-size queries per round sent at the same moment; every socket must receive only answers to its own IDs/questions with the answer data of that question; one evaluation per round. " +
 		"heap: seeded histories of 200 operations (build / wire-parse / constructor call / Clone / Dispose / drop / modify in place) over the full RR, SVCB-parameter and EDNS-option alphabet with slice lengths 0..8; " +
 		"class = hash of the (operation, message kind) sequence; non-trivial iff something was cloned or constructed after a Dispose while another message was live (and, for the 8-goroutine variant, goroutines really overlapped).")
 	r.Assume("upstream answers are a pure function of the question (plus the client subnet for the ECS-dependent name class), with one TTL for all records of an answer and lower-case owner names")
@@ -51,6 +53,9 @@ func TestCheck(t *testing.T) {
 	httpsDefect := runHeapMonitor(r)
 	r.Extra("heap_monitor_seconds", time.Since(tHeap).Seconds())
 	runStackMonitor(t, r, httpsDefect)
+	tl := time.Now()
+	runListeners(r)
+	r.Extra("listener_phase_seconds", time.Since(tl).Seconds())
 
 	// coverage gates (minima far below what the unchanged tree yields)
 	r.Require("stack_requests", 1000)
@@ -81,6 +86,18 @@ func TestCheck(t *testing.T) {
 	// hot host, and enough requests of both profiles overlapped on them
 	r.Require("stack_rulelist_hosts_where_alone_verdicts_differ", 2)
 	r.Require("stack_rulelist_concurrent_requests_overlapping", 4000)
+	// blocked services: sequential histories of profiles with different service
+	// sets on the same host, in both orders, and the concurrent drive
+	r.Require("stack_services_histories_where_alone_verdicts_differ", 20)
+	r.Require("stack_services_sequential_requests", 60)
+	r.Require("stack_services_concurrent_requests_overlapping", 1500)
+	// listeners: concurrent equal-size bursts really reached the real servers and
+	// were in flight together
+	r.Require("listener_udp_datagrams_sent_back_to_back", 1500)
+	r.Require("listener_udp_responses_own", 1000)
+	r.Require("listener_tcp_responses_own", 400)
+	r.Require("listener_dot_responses_own", 400)
+	r.Require("listener_requests_overlapping_in_handler", 500)
 	r.Require("heap_clone_calls", 5000)
 	r.Require("heap_dispose_calls", 5000)
 	r.Require("heap_dispose_wire", 1000)
